@@ -1,4 +1,5 @@
 """C12: optional values: nil test, `get`, `or` and `?=` behave as defined."""
+import re
 from . import core, coregen, coretie, programs
 
 I = lambda n: ('int', n)
@@ -102,6 +103,77 @@ def unwrap_into_cases(rng, n):
     return out
 
 
+def container_cases(rng, n):
+    """optionals as class FIELDS, list ELEMENTS, map values and method results (outside the Coq AST): random histories of
+    ==nil / or / get / ?= / == value / re-assignment with a Python oracle.  -> (source, expected lines, failing line or None)"""
+    out = []
+    pre = ("pos = fn(k: int) -> int? {\n  if k > 0 {\n    return k\n  }\n  return nil\n}\n"
+           "class Box {\n  v: int?\n  constructor(self, v: int?) {\n    self.v = v\n  }\n  fn peek(self) -> int? {\n    return self.v\n  }\n}\n")
+    for _ in range(n):
+        st = {}
+        src = pre
+        for i in range(2):
+            k = rng.randint(0, 3)
+            src += "b%d = Box(pos(%d))\n" % (i, k)
+            st["b%d.v" % i] = k or None
+        ks = [rng.randint(0, 3) for _ in range(3)]
+        src += "cells: [int?...] = [%s]\n" % ", ".join("pos(%d)" % k for k in ks)
+        for i, k in enumerate(ks):
+            st["cells[%d]" % i] = k or None
+        mk = [rng.randint(0, 3) for _ in range(2)]
+        src += 'm = map[str, int?] { "a": pos(%d), "z": pos(%d) }\n' % tuple(mk)
+        st['m["a"]'], st['m["z"]'] = mk[0] or None, mk[1] or None
+        src += "t: int? = nil\n"
+        exp, fail_line = [], None
+
+        def val(x):
+            return st[x.replace(".peek()", ".v")]
+        places = sorted(st) + ["b0.peek()", "b1.peek()"]
+        writable = [p for p in sorted(st) if not p.startswith("m[")]
+        for _ in range(rng.randint(6, 14)):
+            x = rng.choice(places)
+            v = val(x)
+            op = rng.choice(["isnil", "or", "get", "get", "unwrap", "eq", "set", "getsum"])
+            if op == "isnil":
+                src += "print %s == nil\n" % x
+                exp.append("true" if v is None else "false")
+            elif op == "or":
+                k = rng.randint(10, 19)
+                src += "print (%s) or %d\n" % (x, k)
+                exp.append(str(k if v is None else v))
+            elif op == "eq":
+                k = rng.randint(1, 3)
+                src += "print %s == %d\n" % (x, k)
+                exp.append("true" if v == k else "false")
+            elif op == "unwrap":
+                src += "if t ?= %s {\n  print t\n} else {\n  print \"none\"\n}\n" % x
+                exp.append(str(v) if v is not None else "none")
+            elif op == "set":
+                w = rng.choice(writable)
+                k = rng.randint(0, 3)
+                src += "%s = pos(%d)\n" % (w, k)
+                st[w] = k or None
+            elif op == "getsum":
+                y = rng.choice(places)
+                line = src.count("\n") + 1
+                src += "print (get %s) + (get %s)\n" % (x, y)      # `get` binds weaker than `+`: parenthesised
+                if v is None or val(y) is None:
+                    fail_line = line
+                    break
+                exp.append(str(v + val(y)))
+            else:
+                line = src.count("\n") + 1
+                src += "print get %s\n" % x
+                if v is None:
+                    fail_line = line
+                    break
+                exp.append(str(v))
+        if fail_line is not None:
+            src += "print \"unreachable\"\n"
+        out.append((src, exp, fail_line))
+    return out
+
+
 def run(ctx):
     ok = core.coq_props(ctx, "Props/C12.v")
     binary = core.build_repo()
@@ -130,8 +202,28 @@ def run(ctx):
         if got != exp or rc != 0:
             ctx.report("unwrap-into", "`a ?= e` misbehaves: expected %r got %r (rc %d)" % (exp, got, rc),
                        {"program": src, "expected": exp, "observed": got, "rc": rc, "stderr": (out + err)[-400:]})
+    n_c = n_cfail = 0
+    for src, exp, fl, rc, out, err in programs.pmap(lambda c: c + one((c[0], c[1]))[2:], container_cases(ctx.rng, 150 if ctx.quick() else 2500)):
+        n_c += 1
+        got = out.split("\n")[:-1]
+        bad = None
+        if got != exp:
+            bad = "printed %r, the semantics prescribes %r" % (got[-4:], exp[-4:])
+        elif fl is None and rc != 0:
+            bad = "exit status %d, the semantics prescribes normal termination" % rc
+        elif fl is not None:
+            n_cfail += 1
+            m = re.search(r"main\.ms:(\d+):\d+: unwrap of `nil`", err)
+            if rc != 1 or not m:
+                bad = "`get` of nil at line %d must stop the program with an error naming that position; exit status %d, stderr names %r" % (fl, rc, m.group(0) if m else None)
+            elif int(m.group(1)) != fl:
+                bad = "`get` of nil at line %d reported at line %s" % (fl, m.group(1))
+        if bad:
+            ctx.report("optional-in-container", "optional field / element / map value / method result: " + bad,
+                       {"program": src, "expected": exp, "expected_failure_line": fl, "observed": got, "rc": rc, "stderr": err[-400:]})
+    ctx.cov["container_cases"] = {"programs": n_c, "ending_in_get_of_nil": n_cfail}
     nils = sum(1 for r in results if r["status"] == "ran" and r["t3"][0] == "ok" and "unwrap of" in r["real"]["stderr"])
-    ctx.cov["evaluations"] = st["programs"] + n_u
+    ctx.cov["evaluations"] = st["programs"] + n_u + n_c
     ctx.cov["distinct_nontrivial"] = len(set(r["proj"]["files"]["main.ms"] for r in results if r["status"] == "ran"))
     ctx.cov["rule"] = ("optional programs: int?/str? variables, parameters and results, each use of == nil / == value / or (literal, variable, "
                        "side-effecting and nested fallback) / get in statement, if and while position with random nil/present; `?=` in if / statement / "
